@@ -511,17 +511,15 @@ def main():
             defs, extra_header = gfun(args.repo)
             text = HEADER % ", ".join(srcs) + extra_header + "\n".join(t for _, t in defs)
             entry["defs"] = [n for n, _ in defs]
-        except Untranslatable as ex:
+        except Exception as ex:  # Untranslatable (either module copy) or any surprise in a group function: fail closed
+            if isinstance(ex, (SyntaxError, OSError)):
+                raise_later = ex
             entry["ok"] = False
-            entry["errors"].append(str(ex))
+            entry["errors"].append("%s: %s" % (type(ex).__name__, ex))
             msg = str(ex).replace('"', "'").replace("*)", "* )")
             text = HEADER % ", ".join(srcs) + \
                 '(* TRANSLATION FAILED: %s *)\nFail Definition translation_failed := tt.\n' \
                 'Definition translation_failed : False := "%s".\n' % (msg, msg)
-        except (SyntaxError, OSError) as ex:
-            entry["ok"] = False
-            entry["errors"].append("%s: %s" % (type(ex).__name__, ex))
-            text = HEADER % ", ".join(srcs) + 'Definition translation_failed : False := "source unreadable".\n'
         h = hashlib.sha256(text.encode()).hexdigest()[:16]
         entry["sha"] = h
         entry["changed"] = write_if_changed(os.path.join(args.out, gname + ".v"), text)
